@@ -572,6 +572,13 @@ func (cs *CaseStatement) Idx0() file.Idx {
 
 // Idx1 implements Node.
 func (cs *CaseStatement) Idx1() file.Idx {
+	if len(cs.Consequent) == 0 {
+		// An empty clause ends with its test, or the default keyword.
+		if cs.Test != nil {
+			return cs.Test.Idx1()
+		}
+		return file.Idx(int(cs.Case) + len("default"))
+	}
 	return cs.Consequent[len(cs.Consequent)-1].Idx1()
 }
 
@@ -955,10 +962,24 @@ type Program struct {
 
 // Idx0 implements Node.
 func (p *Program) Idx0() file.Idx {
+	if len(p.Body) == 0 {
+		return p.start()
+	}
 	return p.Body[0].Idx0()
+}
+
+// start is the index of the first character of the program's file.
+func (p *Program) start() file.Idx {
+	if p.File == nil {
+		return 1
+	}
+	return file.Idx(p.File.Base())
 }
 
 // Idx1 implements Node.
 func (p *Program) Idx1() file.Idx {
+	if len(p.Body) == 0 {
+		return p.start()
+	}
 	return p.Body[len(p.Body)-1].Idx1()
 }
